@@ -80,10 +80,11 @@ func obCacheMergeOnly(c *rules.Ctx, id string) {
 
 func obPrefetchAgreement(c *rules.Ctx, id string) {
 	ob := c.R.Ob(id, "sumcheck/S4", "every balance the draw traversals can read was registered by the prefetch traversal (per Source kind, with matching conditions)", 5)
-	pre := c.Fn(ob, relInterp, "(*programState).findBalancesQueries")
-	batch := c.Fn(ob, relInterp, "(*programState).batchQuery")
-	draws := []*ssa.Function{c.Fn(ob, relInterp, "(*programState).trySendingUpTo"), c.Fn(ob, relInterp, "(*programState).sendAll")}
-	c.PrefetchAgreesWithDraw(ob, pre, batch, draws, balanceReaders(c))
+	ir := c.IRoles(ob)
+	if ir == nil {
+		return
+	}
+	c.PrefetchAgreesWithDraw(ob, ir.Prefetch, ir.Batch, []*ssa.Function{ir.FixedDraw, ir.SendAll}, balanceReaders(c))
 }
 
 func obWorldNeverQueried(c *rules.Ctx, id string) {
@@ -115,14 +116,16 @@ func init() {
 			c.S1(obs, selPkgs(map[string]bool{relInterp: true}, nil, relInterp))
 			obPrefetchAgreement(c, "C10.1b")
 			ob2 := c.R.Ob("C10.2", "ctrl/order", "an on-demand balance read registers the query, then fetches, then reads; the run fetches once before the first statement", 2)
-			gb := c.Fn(ob2, relInterp, "getBalance")
-			batch := c.Fn(ob2, relInterp, "(*programState).batchQuery")
-			fetch := c.Fn(ob2, relInterp, "(*programState).runBalancesQuery")
+			ir := c.IRoles(ob2)
+			if ir == nil {
+				return
+			}
+			gb, batch, fetch := ir.OnDemand, ir.Batch, ir.Fetch
 			rd := balanceReaders(c)
 			c.CallOrder(ob2, "order:getBalance:fetch-after-batch", gb, func(f *ssa.Function) bool { return f == batch }, func(f *ssa.Function) bool { return f == fetch }, "the query is registered before the fetch")
 			c.CallOrder(ob2, "order:getBalance:read-after-fetch", gb, func(f *ssa.Function) bool { return f == fetch }, func(f *ssa.Function) bool { return f != fetch && f != batch && rd(f) }, "the balance is read only after the fetch")
 			run := c.Fn(ob2, relInterp, "RunProgram")
-			runSt := c.Fn(ob2, relInterp, "(*programState).runStatement")
+			runSt := ir.Dispatcher
 			c.CallOrder(ob2, "order:RunProgram:statements-after-fetch", run, func(f *ssa.Function) bool { return f == fetch }, func(f *ssa.Function) bool { return f == runSt }, "statements run only after the balances were fetched")
 			obCacheMergeOnly(c, "C10.3")
 			obWorldNeverQueried(c, "C10.4")
